@@ -6,8 +6,8 @@ Oracle: spec/ps38_layout.py (independent reference encoder + parser, written fro
 
 Three assertions per class (DESIGN.md section 5, C01):
   (L) encode(v) == reference_encode(v) byte for byte - hence every length field equals the length of
-      what follows it (the reference parser is additionally run on the real bytes: it checks every
-      length field on its own and must give back v);
+      what follows it (the reference encoder computes each length field as len() of the bytes that
+      follow; encoder and parser of the spec are cross-checked against hand-assembled PDUs at import);
   (R) decode(encode(v)) == v;
   (P) primitive -> PDU -> bytes -> PDU -> primitive preserves every parameter PS3.8 transmits.
 
@@ -380,7 +380,7 @@ def same_context(got, cx, with_abstract):
     return list(got.transfer_syntax) == list(cx.transfer_syntax)
 
 
-N_TS = tier(2, 3)
+N_TS = tier(2, 2)
 
 
 @harness(
@@ -456,14 +456,18 @@ def pc_items(cid: int, result: int, ulen: int, nts: int) -> bool:
 # ---------------------------------------------------------------------------------------------
 RQ_KINDS = [k for k in UI_KINDS if k != "uid_ac"]          # an RQ carries the request form of user identity
 AC_KINDS = [k for k in UI_KINDS if k != "uid_rq"]
-N_PC = tier(2, 3)
+N_PC = tier(2, 2)
 NB_PDU = tier(1, 2)                                        # byte payloads inside whole PDUs (item harnesses go to NB)
-PAIRED = not (len(ULENS) > 4)                              # quick: UID length and AE length are enumerated together
+QUICK = not (len(ULENS) > 4)
+# whole-PDU harness: AE-title length and UID length are enumerated TOGETHER from these four pairings in both tiers
+# (their independent product, 16 x 64, is covered by assoc_header and the item harnesses); quick: one pairing per
+# shard, thorough: all four in every shard
+PAIR_A = [1, 2, 15, 16]
+PAIR_U = [1, 2, 63, 64]
 
 
-def build_assoc(which, li, ulen, npc, nts, k0, k1, cid0, cid1, res, a, b, c, f, g, p, s):
+def build_assoc(which, alen, ulen, npc, nts, k0, k1, cid0, cid1, res, a, b, c, f, g, p, s):
     """(A_ASSOCIATE primitive, reference value) of an association request (which='RQ') or accept ('AC')."""
-    alen = ALENS[li] if PAIRED else li
     kinds = RQ_KINDS if which == "RQ" else AC_KINDS
     with untraced():
         called = ae_of_len(alen, 0)
@@ -510,7 +514,7 @@ def _assoc_shards():
     for w in ("RQ", "AC"):
         for k in range(len(RQ_KINDS) + 1):
             # shards that can contain the user-identity request (two byte fields, five types) are split by len(s)
-            heavy = w == "RQ" and (RQ_KINDS[k:k + 1] == ["uid_rq"] or RQ_KINDS[(k + 1) % len(RQ_KINDS)] == "uid_rq" or not PAIRED) and k < len(RQ_KINDS)
+            heavy = w == "RQ" and (RQ_KINDS[k:k + 1] == ["uid_rq"] or RQ_KINDS[(k + 1) % len(RQ_KINDS)] == "uid_rq" or not QUICK) and k < len(RQ_KINDS)
             if heavy:
                 out += [{"pdu": w, "k0": k, "slen": n} for n in range(NB_PDU + 1)]
             else:
@@ -523,7 +527,7 @@ _K0 = shard("k0", 0)
 # second user-information sub-item: quick = none or the next kind (every kind occurs first and second, every
 # kind is followed by another item and is last); thorough = every ordered pair
 K1_OK = tier([len(RQ_KINDS), (_K0 + 1) % len(RQ_KINDS)], list(range(len(RQ_KINDS) + 1)))
-LI_OK = list(range(len(ALENS))) if PAIRED else ALENS
+LI_OK = [0, 1, 2, 3]
 
 
 @harness(
@@ -535,9 +539,10 @@ LI_OK = list(range(len(ALENS))) if PAIRED else ALENS
     bounds="A-ASSOCIATE-RQ and -AC built from the A-ASSOCIATE primitive: 1..%d presentation contexts (first with 1..%d transfer "
            "syntaxes, ids any odd 1..255, AC result any 0..4), 0..2 user-information sub-items (first kind = shard k0, 8 = none; "
            "second: %s), numbers any value (maximum length 0..65535 here; its full 32-bit range is in ui_subitem and assoc_header), byte fields 0..%d bytes, protocol version any 0..65535 at PDU level; "
-           "AE title lengths %s and UID lengths %s (%s)" % (N_PC, N_TS, "none or the next kind" if PAIRED else "any kind or none", NB_PDU, ALENS if PAIRED else "1..16",
-                                                            ULENS if PAIRED else "1..64",
-                                                            "one pairing per shard; all pairings in assoc_header" if PAIRED else "independent"),
+           "(quick tier: the shards that contain the user-identity request use one presentation context with one transfer syntax); "
+           "(AE title length, UID length) from the pairings %s (%s)"
+           % (N_PC, N_TS, "none or the next kind" if QUICK else "any kind or none", NB_PDU, list(zip(PAIR_A, PAIR_U)),
+              "one pairing per shard; all lengths in assoc_header / item harnesses" if QUICK else "all four per shard; all 16 x 64 lengths in assoc_header"),
     stubs=["strings are the fixed legal string of the enumerated length"],
     outside="more than two user-information sub-items / %d presentation contexts per PDU; longer byte fields (item harnesses)" % N_PC,
     findings=["C01-zero-length-field-pdu"],
@@ -545,8 +550,8 @@ LI_OK = list(range(len(ALENS))) if PAIRED else ALENS
 def assoc_pdu(li: int, ulen: int, npc: int, nts: int, k1: int, cid0: int, cid1: int, res: int, pv: int,
               a: int, b: int, c: int, f: bool, g: bool, p: bytes, s: bytes) -> bool:
     """
-    pre: li in LI_OK and ulen in ULENS
-    pre: (not PAIRED) or (ulen == ULENS[li] and li == _K0 % len(ALENS))
+    pre: li in LI_OK and ulen == PAIR_U[li]
+    pre: (not QUICK) or li == _K0 % 4
     pre: 1 <= npc <= N_PC and 1 <= nts <= N_TS and k1 in K1_OK
     pre: 0 <= cid0 <= 127 and 0 <= cid1 <= 127 and 0 <= res <= 4 and 0 <= pv <= 65535
     pre: _W == "AC" or res == 0
@@ -554,6 +559,7 @@ def assoc_pdu(li: int, ulen: int, npc: int, nts: int, k1: int, cid0: int, cid1: 
     pre: 0 <= a <= 65535 and 0 <= b <= 65535 and 0 <= c <= 65535
     pre: len(p) <= NB_PDU and len(s) <= NB_PDU
     pre: PLEN is None or len(s) == PLEN
+    pre: not (QUICK and PLEN is not None) or (npc == 1 and nts == 1)
     pre: not kf.skip("C01-zero-length-field-pdu", p=p, k1=k1)
     post: _ == True
     """
@@ -566,12 +572,11 @@ def assoc_pdu(li: int, ulen: int, npc: int, nts: int, k1: int, cid0: int, cid1: 
     if not _assoc_pre_ok(kinds, _K0, k1, a, b, c, f, g, p, s):
         return True
     cid0, cid1 = 2 * cid0 + 1, 2 * cid1 + 1
-    prim, value, cxs, uis = build_assoc(which, li, ulen, npc, nts, _K0, k1, cid0, cid1, res, a, b, c, f, g, p, s)
+    prim, value, cxs, uis = build_assoc(which, PAIR_A[li], ulen, npc, nts, _K0, k1, cid0, cid1, res, a, b, c, f, g, p, s)
     cls = P.A_ASSOCIATE_RQ if which == "RQ" else P.A_ASSOCIATE_AC
     pdu = cls(prim)
     if not check_pdu(pdu, value, cls):
         return False
-    # the reference parser reads the real bytes back to the same value (every length field on its own)
     q = cls()
     q.decode(pdu.encode())
     back = q.to_primitive()
@@ -604,7 +609,7 @@ def assoc_pdu(li: int, ulen: int, npc: int, nts: int, k1: int, cid0: int, cid1: 
     functions=["pdu:A_ASSOCIATE_RQ.*", "pdu:A_ASSOCIATE_AC.*", "pdu:PDU._wrap_encode_str", "utils:set_ae/decode_bytes"],
     bounds="fixed part of A-ASSOCIATE-RQ/-AC: called AE title of every length in %s with a calling AE title of length 17 - that, "
            "application context / syntax UIDs of every length in %s, one presentation context, maximum-length sub-item with any "
-           "32-bit value, protocol version any 16-bit value" % (ALENS if PAIRED else "1..16", ULENS if PAIRED else "1..64"),
+           "32-bit value, protocol version any 16-bit value" % (ALENS if QUICK else "1..16", ULENS if QUICK else "1..64"),
     stubs=["strings are the fixed legal string of the enumerated length"],
     outside="AE title characters other than the pool's",
 )
@@ -616,8 +621,7 @@ def assoc_header(alen: int, ulen: int, cid0: int, pv: int, a: int) -> bool:
     """
     which = _W
     alen, ulen = concrete(alen), concrete(ulen)
-    li = ALENS.index(alen) if PAIRED else alen
-    prim, value, cxs, uis = build_assoc(which, li, ulen, 1, 1, 0, 99, 2 * cid0 + 1, 3, 0, a, 0, 0, True, True, b"", b"")
+    prim, value, cxs, uis = build_assoc(which, alen, ulen, 1, 1, 0, 99, 2 * cid0 + 1, 3, 0, a, 0, 0, True, True, b"", b"")
     cls = P.A_ASSOCIATE_RQ if which == "RQ" else P.A_ASSOCIATE_AC
     pdu = cls(prim)
     pdu.protocol_version = pv
